@@ -204,6 +204,10 @@ type plan struct {
 	flipWhole []bool
 	flipSpare []bool
 	slow      bool // a Cost-2 entry admitted to the quick tier
+	// decided at genesis, before the worlds fork
+	genKeys        []genKey // the run's generated keys as bytes
+	perWorldKeygen bool     // a generated key has no serialization: each world generates its own
+	stateful       bool     // the library keeps random bytes between calls
 	// shapes of multi-step operations and of constructor inputs
 	readLens []int // lengths of Write chunks and of caller-supplied Read buffers (cycled)
 	perturb  []int // per constructor byte input: 0..10 as read from the key, 11.. an unusual encoding (cycled)
@@ -362,6 +366,8 @@ type world struct {
 	shapeCtr  int
 	master    tink.AEAD
 	noHandles bool // the entry's keys cannot be serialized
+	keyCtr    int  // generated keys imported so far
+	mgrCtr    int  // handles made through a manager so far
 	pertCtr   int  // constructor byte inputs seen (indexes plan.perturb)
 	readCtr   int  // indexes plan.readLens
 	chainOdd  bool // an input of the constructor chain in progress was given an unusual encoding
@@ -1239,6 +1245,10 @@ func (w *world) newKey(first bool) {
 			}
 			k, _, err = catalog.PoolKey(*e.cat, idx, w.pl.idReq)
 			w.r.Probe("pooled-key")
+		} else if n := len(w.pl.genKeys); n > 0 {
+			// generated once at genesis; this world's own objects are parsed from the same bytes
+			k, err = importKey(w.pl.genKeys[w.keyCtr%n])
+			w.keyCtr++
 		} else {
 			k, err = catalog.NewKey(*e.cat)
 		}
@@ -1318,6 +1328,21 @@ func (w *world) anyHandle(arg int) int {
 	return cands[arg%len(cands)]
 }
 
+// mgrHandle wraps one key into a handle through a manager. The ID the manager would draw for a key without ID
+// requirement is fixed by the plan: what a handle looks like does not depend on randomness.
+func (w *world) mgrHandle(k key.Key) (*keyset.Handle, error) {
+	m := keyset.NewManager()
+	opts := []keyset.KeyOpts{keyset.AsPrimary()}
+	if _, required := k.IDRequirement(); !required {
+		w.mgrCtr++
+		opts = append(opts, keyset.WithFixedID((w.pl.idReq^uint32(w.mgrCtr)*0x9e3779b9)|1))
+	}
+	if _, err := m.AddKeyWithOpts(k, internalapi.Token{}, opts...); err != nil {
+		return nil, err
+	}
+	return m.Handle()
+}
+
 func (w *world) handleMgr(arg int) int {
 	ki := w.pickKey(arg)
 	if ki < 0 {
@@ -1328,22 +1353,14 @@ func (w *world) handleMgr(arg int) int {
 	var err error
 	func() {
 		defer w.catch(op)
-		m := keyset.NewManager()
-		if _, err = m.AddKeyWithOpts(w.objs[ki].v.(key.Key), internalapi.Token{}, keyset.AsPrimary()); err != nil {
-			return
-		}
-		h, err = m.Handle()
+		h, err = w.mgrHandle(w.objs[ki].v.(key.Key))
 	}()
 	if (err != nil || h == nil) && w.oddKeys && ki != w.keys[0] {
 		// a key rebuilt from an unusual encoding that the manager will not take: the run's first key always works
 		w.obsErr(op, "odd key", err)
 		func() {
 			defer w.catch(op)
-			m := keyset.NewManager()
-			if _, err = m.AddKeyWithOpts(w.objs[w.keys[0]].v.(key.Key), internalapi.Token{}, keyset.AsPrimary()); err != nil {
-				return
-			}
-			h, err = m.Handle()
+			h, err = w.mgrHandle(w.objs[w.keys[0]].v.(key.Key))
 		}()
 	}
 	if err != nil || h == nil {
@@ -1449,7 +1466,7 @@ func (w *world) stepHandleEnc(arg int) {
 	call := w.newCall()
 	w.msgPtr(opW, call, mem.EncryptedKeyset)
 	w.out(opW, call, mem.EncryptedKeyset.GetEncryptedKeyset(), false)
-	w.obs(opW, "bytes", mem.EncryptedKeyset.GetEncryptedKeyset())
+	w.obsRand(opW, "bytes", mem.EncryptedKeyset.GetEncryptedKeyset())
 	w.newTarget(&target{culprit: opW, kind: "proto-out", pm: mem.EncryptedKeyset})
 	w.setAdd("ops", opW)
 
@@ -1711,6 +1728,10 @@ func (w *world) obsOutput(p *prim, op string, out, msg, aux []byte, auxNil bool)
 	if w.skip {
 		return
 	}
+	if !p.det && w.statefulRandom() {
+		w.obsRand(op, "out", out)
+		return
+	}
 	if w.cursor < len(w.twin.log) {
 		e := w.twin.log[w.cursor]
 		if e.op == op && e.what == "out" && (e.n != len(out) || e.sum != fnv(out)) && !p.det {
@@ -1765,7 +1786,18 @@ func (w *world) acceptOnce(p *prim, out, msg, aux []byte, auxNil bool, flippable
 		}
 	}()
 	w.done(opA)
-	w.obsErr(opA, "err", err)
+	// an accept of deliberately altered content of a randomized output (the replay step) yields whatever the
+	// world's own random IV / salt makes of it: comparable only while the seam reproduces the randomness
+	derived := w.mayReject && !p.det
+	if derived && w.statefulRandom() {
+		e := "ok"
+		if err != nil {
+			e = "err"
+		}
+		w.obsRand(opA, "err", []byte(e))
+	} else {
+		w.obsErr(opA, "err", err)
+	}
 	w.setAdd("ops", opA)
 	if err != nil {
 		if !w.faulted && !p.lenient && !w.mayReject && !p.softAccept {
@@ -1776,7 +1808,11 @@ func (w *world) acceptOnce(p *prim, out, msg, aux []byte, auxNil bool, flippable
 	if p.decrypt != nil {
 		call := w.newCall()
 		w.out(opA, call, pt, flippable)
-		w.obs(opA, "plaintext", pt)
+		if derived {
+			w.obsRand(opA, "plaintext", pt)
+		} else {
+			w.obs(opA, "plaintext", pt)
+		}
 		if !w.faulted && !p.lenient && !w.mayReject && !bytes.Equal(pt, msg) {
 			w.fatalf("%s of %s returns another plaintext in the pristine world", opA, p.ent.name)
 		}
@@ -1990,6 +2026,9 @@ func runWorld(t *rapid.T, r *core.Run, pl *plan, twin *world) *world {
 	cryptotest.SetGlobalRandom(outerT, pl.rngSeed^0x6d656d6f7279)
 	w.g = simrng.New(pl.rngSeed)
 	defer simrng.Install(w.g)()
+	if probeStateful(w.g) {
+		pl.stateful = true
+	}
 	watchBegin(w)
 	defer watchEnd()
 	w.execute()
@@ -2010,9 +2049,19 @@ func run(t *rapid.T) {
 		}
 		r.Logf("plan: entry %s steps %s msgLens %v auxLens %v spares %v flipOn %v delay %v whole %v", pl.ent.name, sb.String(), pl.msgLens, pl.auxLens, pl.spares, pl.flipOn, pl.flipDelay, pl.flipWhole)
 	}
+	genesis(r, pl)
 	a := runWorld(t, r, pl, nil)
 	r.ObsI("world-A-observations", int64(a.acc))
+	if pl.stateful && pl.perWorldKeygen {
+		// the worlds would hold different generated keys for a reason that is no mutation: nothing to compare
+		r.Count("world-B-left-out(stateful randomness, key without serialization)", 1)
+		r.End(pl.ent.class+"/"+pl.ent.keyType+"/"+pl.ent.variant+"|world A only", false)
+		return
+	}
 	b := runWorld(t, r, pl, a)
+	if pl.stateful {
+		r.Probe("stateful-randomness-observed")
+	}
 	if !b.aborted && !a.aborted && b.knownHits == 0 {
 		if b.markN != len(a.marks) || len(b.objs) != len(a.objs) || len(b.handles) != len(a.handles) {
 			r.Violation("C19/mutation-visible:history", fmt.Sprintf("world B ended with %d steps/sweeps, %d objects, %d handles; world A with %d, %d, %d",
